@@ -137,8 +137,26 @@ class DiffStats:
         self.exact = 0
 
 
-def diff(a, b, path="", rtol=RTOL, stats=None):
-    """Return None if equal (floats within tolerance), else a short path string."""
+def _num(node):
+    if isinstance(node, list) and len(node) == 2:
+        if node[0] == "b":
+            return 1.0 if node[1] else 0.0
+        if node[0] == "i":
+            return float(node[1])
+        if node[0] == "f" and isinstance(node[1], str):
+            return _float_of(node)
+    return None
+
+
+def diff(a, b, path="", rtol=RTOL, stats=None, loose_numbers=False):
+    """Return None if equal (floats within tolerance), else a short path string.
+
+    loose_numbers: a bool, an int and a float of the same numeric value count as equal (a REAL column returns 1.0 for
+    True); anything else - e.g. True coming back as the text 'TRUE' - is still a difference."""
+    if loose_numbers:
+        na, nb = _num(a), _num(b)
+        if na is not None and nb is not None and a[0] != b[0]:
+            return None if (na == nb or (na != na and nb != nb)) else path + ":value"
     if isinstance(a, list) and isinstance(b, list):
         if a and b and a[0] == "f" and b[0] == "f" and len(a) == 2 and len(b) == 2 \
                 and isinstance(a[1], str) and isinstance(b[1], str):
@@ -157,7 +175,7 @@ def diff(a, b, path="", rtol=RTOL, stats=None):
         if len(a) != len(b):
             return path + ":len"
         for i, (x, y) in enumerate(zip(a, b)):
-            d = diff(x, y, f"{path}/{i}", rtol, stats)
+            d = diff(x, y, f"{path}/{i}", rtol, stats, loose_numbers)
             if d is not None:
                 return d
         return None
